@@ -349,11 +349,11 @@ def gen_hist(req, I):
 
 PROPS.update({
     'C16': dict(
-        extra_modules=['GraphrsModel.Props.C16Store', 'GraphrsModel.Props.C16Dist', 'GraphrsModel.Props.C16DistDir'],
+        extra_modules=['GraphrsModel.Props.C16Store', 'GraphrsModel.Props.C16Dist', 'GraphrsModel.Props.C16DistDir', 'GraphrsModel.Props.FormulasC16'],
         thorough_scale=1.5,
         gens=[('complete', '-', 120, 600, 14), ('karate', '-', 1, 1, 0), ('gnp', 'small', 1500, 25000, 40), ('gnp', 'sparse', 4000, 60000, 40), ('gnp', 'large', 40, 400, 300),
               ('gnpstat', '-', 40, 300, 0)],
-        translators=['karate'],
+        translators=['karate', 'presets'],
         spec_fields=[r'ok\.complete', r'ok\.karate', r'ok\.gnp'], model_fields=[r'nodes', r'edges'], impl_checks=[('same', '1')],
         custom=gnpstat_check, require_spec_fields=False,
         nontrivial=lambda req, I: I.get('edges', '.') not in ('.', 'E3') or 'sum' in I,
@@ -487,6 +487,9 @@ PROPS.update({
 
 
 def run_translator(ctx, name):
+    if name == 'presets':
+        import formulas
+        return formulas.presets(ctx)
     if name == 'formulas':
         import formulas
         # C17 relies on the same expressions of update_best_com as C13
